@@ -12,17 +12,25 @@ func VerifH_C13_readonly() {
 	// bucket with 0..3 unmerged versions
 	bkt := vNewBucket()
 	nv := symChoice("versions", symParam("maxversions", 3)+1)
+	// the versions may also be identical in content (two writers that stored
+	// the same rows under the same write times): merging them in memory
+	// leaves nothing to store
+	same := nv >= 2 && symParam("twins", 1) == 1 && symChoice("identical-versions", 2) == 1
 	for v := 0; v < nv; v++ {
 		// each writer starts from an empty fork so the versions stay unmerged
 		w2 := vMustOpen(vForkInto(bkt, v), vTableOpts{bf: 2}, int64(10+v))
-		if err := vIns(w2, int64(100+v), int64(v+1), int64(v), nil); err != nil {
+		d := v
+		if same {
+			d = 0
+		}
+		if err := vIns(w2, int64(100+d), int64(d+1), int64(d), nil); err != nil {
 			panic(err)
 		}
 		// and a row that is already deleted again (a vacuum would have work to do)
-		if err := vIns(w2, int64(100+v), int64(40+v), int64(v), nil); err != nil {
+		if err := vIns(w2, int64(100+d), int64(40+d), int64(d), nil); err != nil {
 			panic(err)
 		}
-		if err := w2.Delete(vAt(int64(150+v)), int64(40+v)); err != nil {
+		if err := w2.Delete(vAt(int64(150+d)), int64(40+d)); err != nil {
 			panic(err)
 		}
 		if err := w2.Commit(vCtx); err != nil {
@@ -49,10 +57,14 @@ func VerifH_C13_readonly() {
 	tables["t"] = ro
 	rows0, err := vScan(ro)
 	symAssert(err == nil, "scan-ok")
+	distinct := nv
+	if same {
+		distinct = 1
+	}
 	if merged {
-		symAssert(len(rows0) == nv+1, "sees-all-versions")
+		symAssert(len(rows0) == distinct+1, "sees-all-versions")
 	} else {
-		symAssert(len(rows0) == nv, "sees-all-versions")
+		symAssert(len(rows0) == distinct, "sees-all-versions")
 	}
 	steps := symParam("steps", 2)
 	for i := 0; i < steps; i++ {
